@@ -33,3 +33,22 @@ func (e *SM2Element) VerifDivstepInvert(x *SM2Element) *SM2Element {
 	copy(e.x[:], out[:])
 	return e
 }
+
+// VerifOpp sets e = -t mod n with the (otherwise unused) generated sm2ScalarOpp.
+func (e *SM2ScalarElement) VerifOpp(t *SM2ScalarElement) *SM2ScalarElement {
+	sm2ScalarOpp(&e.x, &t.x)
+	return e
+}
+
+// VerifNonzero / VerifScalarNonzero run the (otherwise unused) generated nonzero tests on raw limbs.
+func VerifNonzero(raw [4]uint64) uint64 {
+	var out uint64
+	sm2Nonzero(&out, &raw)
+	return out
+}
+
+func VerifScalarNonzero(raw [4]uint64) uint64 {
+	var out uint64
+	sm2ScalarNonzero(&out, &raw)
+	return out
+}
